@@ -1,4 +1,6 @@
 import Bxh.Proofs.ExecLemmas
+import Bxh.Proofs.ExecRec
+import Bxh.Props.C02
 /-!
 # C04 — cross-chain transaction status follows the protocol state machine
 The transition table `Gen.txFsm` is regenerated from `transaction_manager.go` on every run; the
@@ -121,5 +123,111 @@ theorem C04_status_query_exact (l : Led) (id : TxId) (r : Rec)
 
 /-- non-vacuity: the table does move BEGIN on a success receipt -/
 example : txFsmStep .begin (receiptEvent 1) = some .success := by decide
+
+-- ------------------------------------------------------------------------------------ history level
+open Bxh.Props.C02 in
+/-- protocol path: the reflexive-transitive closure of the steps of the (regenerated) state machine -/
+inductive Reach : Status → Status → Prop
+  | refl (s : Status) : Reach s s
+  | step {a b c : Status} (ev : String) : Reach a b → txFsmStep b ev = some c → Reach a c
+
+theorem Reach.of_final {a b : Status} (h : Reach a b) (hf : a.isFinal = true) : b = a := by
+  induction h with
+  | refl => rfl
+  | step ev _ hs ih =>
+    subst ih
+    rw [C04_final_absorbing_step _ ev hf] at hs
+    cases hs
+
+/-- every step of a protocol path is one of the protocol's edges -/
+theorem Reach.edges {a b : Status} (h : Reach a b) : a = b ∨ ∃ m, Reach a m ∧ (m, b) ∈ protocolEdges := by
+  cases h with
+  | refl => exact Or.inl rfl
+  | step ev h1 hs => exact Or.inr ⟨_, h1, C04_step_is_protocol_edge _ _ _ hs⟩
+
+open Bxh.Props.C02 in
+/-- **the status of a one-to-one transaction only moves along the state machine, over any history of
+IBTPs** (requests and receipts of this and every other pair, valid or not, one-to-many traffic, in any
+interleaving): if the record of `t` — a transaction of a pair with an index-checked destination whose index
+the pair's counter has already passed, as it is for every record the contract created — shows status `st`,
+then after the history it still has a record, and its status is reached from `st` by steps of the state machine -/
+theorem C04_history_status_path (env : Env) (t : TxId) (is : List Ibtp) (l : Led) (st : Status)
+    (hd : OrderedDst env l t.to) (hb : t.index ≤ reqCounter l t.frm t.to) (hs : recStatus l t = some st) :
+    ∃ st', recStatus (runIbtps env l is) t = some st' ∧ Reach st st' := by
+  induction is generalizing l st with
+  | nil => exact ⟨st, hs, Reach.refl st⟩
+  | cons i rest ih =>
+    simp only [runIbtps, List.foldl_cons]
+    cases hh : handleIBTP env l i with
+    | error e => simp only; exact ih l st hd hb hs
+    | ok r =>
+      simp only
+      obtain ⟨ck, hck⟩ := handleIBTP_ok_checked hh
+      have hd' : OrderedDst env r.1 t.to := by
+        obtain ⟨h1, h2, h3, h4⟩ := hd
+        exact ⟨h1, h2, h3, fun sv hsv => h4 sv (by rw [← handleIBTP_svc_frame hh]; exact hsv)⟩
+      have hcnt := handleIBTP_reqCounter hck hh t.frm t.to
+      have hb' : t.index ≤ reqCounter r.1 t.frm t.to := by
+        rw [hcnt]; split <;> omega
+      change ∃ st', recStatus (runIbtps env r.1 rest) t = some st' ∧ Reach st st'
+      rcases handleIBTP_rec hck hh t with h1 | ⟨hreq, ht⟩ | ⟨_, s0, s1, hs0, hstep, hs1⟩
+      · exact ih r.1 st hd' hb' (by rw [recStatus_congr h1]; exact hs)
+      · -- a request with the very id `t`: its index would have to be counter + 1, but the counter has passed it
+        exfalso
+        have hdst : ck.dst = t.to := by rw [ht]
+        have hsrc : ck.src = t.frm := by rw [ht]
+        have hnb : ck.isBatch = false := orderedDst_not_batch (by rw [hdst]; exact hd) hck hreq
+        have hidx := C02_accept_needs_next_index env l i ck hck hreq hnb
+        have : t.index = i.index := by rw [ht]
+        unfold reqCounter at hb
+        rw [← hsrc, ← hdst] at hb
+        omega
+      · rw [hs] at hs0
+        cases hs0
+        obtain ⟨st', h2, h3⟩ := ih r.1 s1 hd' hb' hs1
+        refine ⟨st', h2, ?_⟩
+        -- prepend the step st → s1 to the path s1 ⇝ st'
+        clear h2 ih
+        induction h3 with
+        | refl => exact Reach.step _ (Reach.refl _) hstep
+        | step ev _ hs' ih' => exact Reach.step ev ih' hs'
+
+open Bxh.Props.C02 in
+/-- **SUCCESS, FAILURE and ROLLBACK are final over every history**: no sequence of IBTPs changes a record that
+has reached one of them -/
+theorem C04_history_final_stays (env : Env) (t : TxId) (is : List Ibtp) (l : Led) (st : Status)
+    (hd : OrderedDst env l t.to) (hb : t.index ≤ reqCounter l t.frm t.to) (hs : recStatus l t = some st)
+    (hf : st.isFinal = true) : recStatus (runIbtps env l is) t = some st := by
+  obtain ⟨st', h1, h2⟩ := C04_history_status_path env t is l st hd hb hs
+  rw [h1, h2.of_final hf]
+
+open Bxh.Props.C02 in
+/-- the counter hypothesis holds for every record the contract creates: right after a request of an
+index-checked pair has been accepted, the pair's counter equals the request's index -/
+theorem C04_created_record_is_bounded (env : Env) (l : Led) (i : Ibtp) (ck : Checked) (r : Led × String)
+    (hck : checkIBTP env l i = .ok ck) (h : handleIBTP env l i = .ok r) (hreq : i.typ.isRequest = true)
+    (hd : OrderedDst env l ck.dst) : i.index ≤ reqCounter r.1 ck.src ck.dst := by
+  have hnb : ck.isBatch = false := orderedDst_not_batch hd hck hreq
+  have hidx := C02_accept_needs_next_index env l i ck hck hreq hnb
+  rw [handleIBTP_reqCounter hck h ck.src ck.dst]
+  simp only [hreq, and_self, if_true]
+  unfold reqCounter
+  omega
+
+open Bxh.Props.C02 in
+/-- non-vacuity: request 1 is accepted (BEGIN), the success receipt finalises it, and a replayed request,
+a failure receipt and a rollback receipt afterwards leave SUCCESS in place -/
+example :
+    let svc : Svc := { ordered := true, blacklist := [], available := true }
+    let l : Led := { store := [(.svc "c1" "s1", .svc svc), (.svc "c2" "s1", .svc svc)] }
+    let env : Env := { cfg := {}, cache := [], height := 7, txIndex := 0 }
+    let s11 : SvcId := { bxh := "1356", chain := "c1", sid := "s1" }
+    let s21 : SvcId := { bxh := "1356", chain := "c2", sid := "s1" }
+    let m (ty : IType) : Ibtp := { frm := some s11, to := some s21, index := 1, typ := ty, timeout := 0, group := none }
+    let t : TxId := { frm := s11, to := s21, index := 1 }
+    recStatus (runIbtps env l [m .interchain]) t = some .begin ∧
+    recStatus (runIbtps env l [m .interchain, m .receiptSuccess]) t = some .success ∧
+    recStatus (runIbtps env l [m .interchain, m .receiptSuccess, m .interchain, m .receiptFailure, m .receiptRollback]) t = some .success := by
+  decide
 
 end Bxh.Props.C04
